@@ -96,6 +96,10 @@ def ev(n, env, funcs=None):
     if isinstance(n, ast.Name):
         if n.id in env:
             return env[n.id]
+        if funcs and '__globals__' in funcs and n.id in funcs['__globals__']:
+            return funcs['__globals__'][n.id]
+        if funcs and '__name__' in funcs:
+            return funcs['__name__'](n.id)
         raise Unsupported('free name %s' % n.id)
     if isinstance(n, ast.Attribute):
         txt = ast.unparse(n)
@@ -141,7 +145,7 @@ def ev(n, env, funcs=None):
             if isinstance(v, (int, float)):
                 return float(v).is_integer()
             raise Unsupported('is_integer on a non-number')
-        if isinstance(f, ast.Attribute) and not isinstance(f.value, ast.Attribute):
+        if isinstance(f, ast.Attribute) and ast.unparse(f.value) not in ('math', 'np', 'numpy', 'tracklib', 'progressbar'):
             try:
                 rv = ev(f.value, env, funcs)
             except Unsupported:
@@ -334,10 +338,17 @@ def run_block(stmts, env, funcs=None, limit=10000):
     """Tiny concrete interpreter for comparison-only code (if/elif/else, assignments, return).
     Returns ('return', value) | ('fall', None).  `env` is updated in place."""
     for s in stmts:
-        if isinstance(s, ast.Assign):
+        if isinstance(s, ast.Global):
+            if not (funcs and '__globals__' in funcs):
+                raise Unsupported('global statement')
+            env.setdefault('__global_decl__', set()).update(s.names)
+        elif isinstance(s, ast.Assign):
             v = ev(s.value, env, funcs)
             for t in s.targets:
-                _bind(t, v, env)
+                if isinstance(t, ast.Name) and t.id in env.get('__global_decl__', ()):
+                    funcs['__globals__'][t.id] = v
+                else:
+                    _bind(t, v, env, funcs)
         elif isinstance(s, ast.AugAssign) and isinstance(s.target, ast.Subscript):
             base = ev(s.target.value, env, funcs)
             key = ev(s.target.slice, env, funcs)
@@ -378,7 +389,7 @@ def run_block(stmts, env, funcs=None, limit=10000):
                 n_it += 1
                 if n_it > limit:
                     raise Unsupported('loop bound')
-                _bind(s.target, item, env)
+                _bind(s.target, item, env, funcs)
                 r = run_block(s.body, env, funcs, limit)
                 if r[0] == 'break':
                     break
@@ -415,23 +426,23 @@ def run_block(stmts, env, funcs=None, limit=10000):
     return ('fall', None)
 
 
-def _bind(t, v, env):
+def _bind(t, v, env, funcs=None):
     if isinstance(t, ast.Name):
         env[t.id] = v
     elif isinstance(t, ast.Subscript):
-        base = ev(t.value, env)
+        base = ev(t.value, env, funcs)
         if isinstance(base, list):
-            k = ev(t.slice, env)
+            k = ev(t.slice, env, funcs)
             if not isinstance(k, int) or not -len(base) <= k < len(base):
                 raise IndexError('store index %r out of range in %s' % (k, ast.unparse(t)))
             base[k] = v
             return
         if not isinstance(base, Table):
             raise Unsupported('store into %s' % ast.unparse(t))
-        base[ev(t.slice, env)] = v
+        base[ev(t.slice, env, funcs)] = v
     elif isinstance(t, (ast.Tuple, ast.List)):
         for a, b in zip(t.elts, v):
-            _bind(a, b, env)
+            _bind(a, b, env, funcs)
     else:
         raise Unsupported('target %s' % ast.unparse(t))
 
